@@ -15,7 +15,7 @@ RULE = ("all lists of 1-3 well-formed single-channel sequences (note sets over a
         "on lattice ticks, distributed over the sequences without contradiction; program changes) saved with "
         "sequences_save to a real file and re-loaded with sequences_load; non-trivial = >=2 events on one tick or a "
         "signature after tick 0")
-SCALE = ('16-120 notes (long); ladder 33..1025 notes under one pedal note held from start to end, no time signature at tick 0, five insertion orders (voices, halves, stride 7 / 31, reverse); signatures read through both views')
+SCALE = ('16-120 notes (long); ladder 33..1025 notes under one pedal note held from start to end, no time signature at tick 0, five insertion orders (voices, halves, stride 7 / 31, reverse); signatures read through both views; a settings file with another ppqn activated after import; numpy integer ticks every 5th case')
 ASSUMPTIONS = ["mido's byte-level reading/writing is trusted", "channels are not compared (the writer emits channel 0)",
                "total duration / trailing rests are not part of the statement"]
 REQUIRED_FLAGS = ["after_history", "leading_rest", "simultaneous_events", "abutting_repeat", "signature_after_tick_0", "all_fifteen_keys",
